@@ -265,6 +265,28 @@ var plants = func() []plant {
 			errLines: func(gen.Opts) []int { return []int{3} }},
 		{name: "break-after-loop", stmt: true, lines: []string{"for i9 in [1]:", "    pass", "break"}, where: func(s *slot) bool { return s.stmt && s.inFunc && !s.inLoop }, violates: always,
 			errLines: func(gen.Opts) []int { return []int{2} }},
+		// after a while loop (when while is available) the loop context is over, as after a for loop
+		{name: "break-after-while", stmt: true, lines: []string{"while False:", "    pass", "break"}, where: func(s *slot) bool { return s.stmt && s.inFunc && !s.inLoop }, violates: always,
+			errLines: func(o gen.Opts) []int {
+				if o.While {
+					return []int{2}
+				}
+				return []int{0}
+			}},
+		{name: "continue-after-nested-while", stmt: true, lines: []string{"for i9 in [1]:", "    while False:", "        break", "continue"}, where: func(s *slot) bool { return s.stmt && s.inFunc && !s.inLoop }, violates: always,
+			errLines: func(o gen.Opts) []int {
+				if o.While {
+					return []int{3}
+				}
+				return []int{1}
+			}},
+		{name: "break-after-toplevel-while", stmt: true, lines: []string{"while False:", "    pass", "break"}, where: func(s *slot) bool { return s.stmt && s.top }, violates: always,
+			errLines: func(o gen.Opts) []int {
+				if o.While && o.TopLevelControl {
+					return []int{2}
+				}
+				return []int{0}
+			}},
 		{name: "return-in-toplevel-else", stmt: true, lines: []string{"if G0:", "    pass", "else:", "    return 1"}, where: func(s *slot) bool { return s.stmt && s.top }, violates: always,
 			errLines: func(o gen.Opts) []int {
 				if o.TopLevelControl {
